@@ -34,7 +34,7 @@ def decode_and_check(ctx, interp, fn, f, devicetype, dmap, kw=True):
         return None
     ctx.cover()
     ok = r is not None and is_instance(r, C.Command)
-    ctx.prove("result-is-a-command", ok, detail="result %r" % (r,))
+    ctx.prove("result-is-a-command", ok, detail="result of class %s" % (type_of(r).__name__ if r is not None else None,))
     if not ok:
         return None
     fr = interp.get_attr(r, "frame")
